@@ -252,6 +252,9 @@ def remoteEvOf (j : Json) : Except String Remote.Ev := do
     let r ← getStr j "r"
     let b ← blobOf j
     pure (.getRes (← getNat j "p") (← nsOf (← getStr j "ns")) (← getBytes j "k") (if r == "yes" then some b else none) (← getBool j "filled"))
+  | "tset" => pure (.taintSet (← getNat j "p") (← getBytes j "k") (← getBool j "la") (← getBool j "ra") (← getBool j "ok"))
+  | "texists" => pure (.taintExists (← getNat j "p") (← getBytes j "k") (← resOf (← getStr j "r")))
+  | "tdel" => pure (.taintDelete (← getNat j "p") (← getBytes j "k") (← getBool j "la") (← getBool j "ra") (← getBool j "ok"))
   | "set" =>
     pure (.setRes (← getNat j "p") (← nsOf (← getStr j "ns")) (← getBytes j "k") (← blobOf j) (← getBool j "l") (← getBool j "rem") (← getBool j "ok"))
   | _ => throw s!"unknown event {e}"
@@ -274,9 +277,13 @@ def remoteReplay : Handler := fun j => do
   let vis ← q.toList.mapM (fun x => do
     let a ← x.getArr?
     let w ← (a[0]?.getD Json.null).getInt?
-    let ns ← nsOf (← (a[1]?.getD Json.null).getStr?)
+    let nss ← (a[1]?.getD Json.null).getStr?
     let k ← asBytes (a[2]?.getD Json.null)
-    pure (Json.bool (if w < 0 then (s.remote ns k).isSome else (s.loc w.toNat ns k).isSome)))
+    if nss == "taint" then
+      pure (Json.bool (if w < 0 then s.rtaint k else s.ltaint w.toNat k))
+    else
+      let ns ← nsOf nss
+      pure (Json.bool (if w < 0 then (s.remote ns k).isSome else (s.loc w.toNat ns k).isSome)))
   -- closure of the remote store over the queried target keys
   let dangling := q.toList.filterMap (fun x =>
     match x.getArr? with
